@@ -131,7 +131,7 @@ func newWorld(e *core.Env, sub string, ci int, S, C, batch string, nT int, natTi
 	if soB.TCP && C != "direct" {
 		nsrv++
 	}
-	if !inst.WaitLogs("relay service listener", nsrv, 10*time.Second) {
+	if !inst.WaitLogs("relay service listener", nsrv, 40*time.Second) {
 		inst.Stop(10 * time.Second)
 		return nil, fmt.Errorf("listeners did not start: %v", inst.LogLines(10))
 	}
@@ -247,7 +247,7 @@ func roamCase(e *core.Env, ci int, S, batch string) {
 	viol := func(kind, format string, a ...any) {
 		rec.Violate("relay", ci, core.Sig("kind", kind, "part", "relay", "S", S, "C", "direct", "batch", batch, "scenario", "roam"), map[string]any{"logs": inst.LogLines(15)}, format, a...)
 	}
-	if !inst.WaitLogs("relay service listener", 1, 10*time.Second) {
+	if !inst.WaitLogs("relay service listener", 1, 40*time.Second) {
 		rec.Inconclusive("roam listeners")
 		return
 	}
@@ -294,7 +294,7 @@ func roamCase(e *core.Env, ci int, S, batch string) {
 	const overhead = 16 + 19 + 7 + 16
 	v4max, v6max := 1500-28-overhead, 1500-48-overhead
 	ask(v4max, netip.AddrPort{})
-	if !svx.Poll(8*time.Second, func() bool { return got(v4max) }) {
+	if !svx.Poll(30*time.Second, func() bool { return got(v4max) }) {
 		viol("fitting_reply_dropped", "a reply of %d bytes that fits the IPv4 path was not delivered", v4max)
 		return
 	}
@@ -305,13 +305,13 @@ func roamCase(e *core.Env, ci int, S, batch string) {
 	}
 	v6 := netip.MustParseAddrPort(fmt.Sprintf("[::1]:%d", ports[0]))
 	ask(v6max, v6)
-	if !svx.Poll(8*time.Second, func() bool { return got(v6max) }) {
+	if !svx.Poll(30*time.Second, func() bool { return got(v6max) }) {
 		viol("fitting_reply_dropped", "after the client moved to IPv6 a reply of %d bytes that fits the IPv6 path was not delivered", v6max)
 		return
 	}
 	ask(v6max+6, v6) // fits IPv4, not IPv6
 	ask(33, v6)      // marker: processed after the oversize one
-	if !svx.Poll(8*time.Second, func() bool { return got(33) }) {
+	if !svx.Poll(30*time.Second, func() bool { return got(33) }) {
 		viol("datagram_or_reply_lost", "marker reply after roaming did not arrive")
 		return
 	}
@@ -402,7 +402,7 @@ func relayCase(e *core.Env, ci int, r *core.RNG, S, C, batch string) {
 		}
 		all = append(all, batchSent...)
 		want := len(all)
-		ok := svx.Poll(8*time.Second, func() bool {
+		ok := svx.Poll(30*time.Second, func() bool {
 			got := 0
 			for _, p := range peers {
 				got += len(p.Got())
@@ -434,7 +434,7 @@ func relayCase(e *core.Env, ci int, r *core.RNG, S, C, batch string) {
 		seqA, seqDrop, seqB := rounds, rounds+1, rounds+2
 		p.Send(w.targetAddr(nameOK, true), mkPayload(0, seqA, w.targets[nameOK].Tag, 10))
 		all = append(all, sent{0, seqA, nameOK, 10})
-		if !svx.Poll(8*time.Second, func() bool { return len(p.Got()) >= before+1 }) {
+		if !svx.Poll(30*time.Second, func() bool { return len(p.Got()) >= before+1 }) {
 			w.viol("datagram_or_reply_lost", "reply for the pre-failure domain datagram did not arrive")
 			return
 		}
@@ -445,13 +445,13 @@ func relayCase(e *core.Env, ci int, r *core.RNG, S, C, batch string) {
 		w.dns.FailNext(fresh, 64)
 		warnBefore := w.inst.CountLogs("Failed to pack packet")
 		p.Send(conn.MustAddrFromDomainPort(fresh, uint16(w.tport)), mkPayload(0, seqDrop, w.targets[nameBad].Tag, 10))
-		dropped := svx.Poll(8*time.Second, func() bool { return w.inst.CountLogs("Failed to pack packet") > warnBefore })
+		dropped := svx.Poll(30*time.Second, func() bool { return w.inst.CountLogs("Failed to pack packet") > warnBefore })
 		w.dns.FailNext(fresh, 0)
 		if dropped {
 			feats["dnsfail"] = true
 			p.Send(conn.MustAddrFromDomainPort(fresh, uint16(w.tport)), mkPayload(0, seqB, w.targets[nameBad].Tag, 10))
 			all = append(all, sent{0, seqB, nameBad, 10})
-			if !svx.Poll(8*time.Second, func() bool { return len(p.Got()) >= before+2 }) {
+			if !svx.Poll(30*time.Second, func() bool { return len(p.Got()) >= before+2 }) {
 				// fall through: the target-side checks below say where it went
 				feats["dnsfail-noreply"] = true
 			}
